@@ -1,6 +1,7 @@
 import SakuraVerif.Model.ScriptExec
 import SakuraVerif.Driver.Sexp
 import SakuraVerif.Driver.Wire
+import SakuraVerif.Lemmas.ScriptCheck
 /-! Driver side of the script tie: parses the real token list and function table (S-expression form written by the harness op
     `scriptrun`), runs `Model.ScriptExec` and prints log, notes and the height of the value stack. -/
 namespace Sakura.Driver
@@ -47,40 +48,8 @@ def showLog (l : List (Int × List Nat)) : String :=
     if p.2 == [87] then s!"[LIMIT-W]({p.1})" else if p.2 == [70] then s!"[LIMIT-F]({p.1})"
     else s!"[PRINT]({p.1}) " ++ String.ofList (p.2.map Char.ofNat)))
 
-/-! executable versions of the token classes `Sx.Ex` / `Sx.Arg` / `Sx.Stm` of `Lemmas/ScriptStack.lean` (the premises of the stack
-    theorem): the stream reports whether the real token lists are inside them -/
-mutual
-partial def isEx (n : Nat) (t : Sx.Tok) : Bool :=
-  match t with
-  | .mk .constInt .. | .mk .constStr .. => true
-  | .mk .getVariable _ _ _ (some _) _ _ => true
-  | .mk .calcTree _ tag _ _ _ (some kids) =>
-    if tag = 0 then (match kids with | [e] => isEx n e | _ => false)
-    else if tag = 33 then kids.all (isArg n)
-    else (Sx.calcOp tag none none).isSome && kids.all (isArg n)
-  | .mk .tokens _ _ _ _ _ (some [e]) => isEx n e
-  | .mk .callUser _ tag _ _ _ (some kids) => decide (0 ≤ tag) && decide (tag.toNat < n) && kids.all (isArg n)
-  | _ => false
-partial def isArg (n : Nat) (t : Sx.Tok) : Bool :=
-  match t with
-  | .mk .tokens _ _ _ _ _ (some []) => true
-  | _ => isEx n t
-end
-def isValL (n : Nat) (l : List Sx.Tok) : Bool := match l with | [] => true | [a] => isArg n a | _ => false
-partial def isStm (n : Nat) (t : Sx.Tok) : Bool :=
-  match t with
-  | .mk .lineNo .. | .mk .valueInc .. | .mk .break_ .. | .mk .continue_ .. => true
-  | .mk .defInt _ _ _ (some _) _ (some kids) | .mk .defStr _ _ _ (some _) _ (some kids) => isValL n kids
-  | .mk .letVar _ _ _ _ (.str _ :: _) (some kids) => isValL n kids
-  | .mk .print _ _ _ _ _ (some kids) => kids.all (isArg n)
-  | .mk .tokens _ _ _ _ _ (some kids) => kids.all (isStm n)
-  | .mk .if_ _ _ _ _ _ (some (c :: th :: el :: _)) => isValL n c.kids && th.kids.all (isStm n) && el.kids.all (isStm n)
-  | .mk .while_ _ _ _ _ _ (some (c :: b :: _)) => isValL n c.kids && b.kids.all (isStm n)
-  | .mk .for_ _ _ _ _ _ (some (i :: c :: k :: b :: _)) => i.kids.all (isStm n) && isValL n c.kids && k.kids.all (isStm n) && b.kids.all (isStm n)
-  | .mk .return_ _ _ _ _ _ (some kids) => isValL n kids
-  | .mk .callUser _ tag _ _ _ (some kids) => decide (0 ≤ tag) && decide (tag.toNat < n) && kids.all (isArg n)
-  | .mk .noteN _ _ _ _ (.int _ :: _) _ => true
-  | _ => false
+/-! the premises of the script theorems are decided with the checkers of `Lemmas/ScriptCheck.lean` (`progB`, `rankedB`), which are
+    proved sound there -/
 
 /-- `scriptexec <hex tokens> <hex functions|~>` -/
 def scriptExecOp (toksHex funcsHex : String) : String :=
@@ -88,10 +57,13 @@ def scriptExecOp (toksHex funcsHex : String) : String :=
   let toks := (parse ("(" ++ txt ++ ")")).items.map stokOfS
   let ftxt := if funcsHex == "~" then "" else String.ofList ((unhex funcsHex).map Char.ofNat)
   let fns := (parse ("(" ++ ftxt ++ ")")).items.map fnOfS
-  let s := Sx.run fns toks 400000
-  if s.bad then "unsupported" else
+  -- without a call cycle the need computed from the text is enough fuel (C07_script_terminates); otherwise a fixed depth
+  let ranked := Sx.rankedB fns
+  let need := Sx.needList (Sx.nfOf fns) toks
+  let wf := Sx.progB fns toks 2000
+  let s := Sx.run fns toks (if ranked then need else 400000)
+  if s.bad then s!"unsupported wf={if wf then 1 else 0} ranked={if ranked then 1 else 0}" else
   let lg := showLog s.log
-  let wf := toks.all (isStm fns.length) && fns.all (fun fn => fn.body.all (isStm fns.length))
-  s!"wf={if wf then 1 else 0} log={if lg.isEmpty then "~" else hex (lg.toUTF8.toList.map (fun b => b.toNat))} notes={if s.notes.isEmpty then "~" else ",".intercalate (s.notes.map toString)} stack={s.stack.length} brk={s.brk}"
+  s!"wf={if wf then 1 else 0} ranked={if ranked then 1 else 0} need={need} log={if lg.isEmpty then "~" else hex (lg.toUTF8.toList.map (fun b => b.toNat))} notes={if s.notes.isEmpty then "~" else ",".intercalate (s.notes.map toString)} stack={s.stack.length} brk={s.brk}"
 
 end Sakura.Driver
